@@ -1,5 +1,5 @@
 CONSTANTS Worlds <- WorldsAll
-          Starts = {4, 8}
+          Starts = {6}
           Horizon = 19
           MaxStep = 2
           CutLag = 2
